@@ -61,6 +61,7 @@ import (
 	"unicode"
 	"unicode/utf8"
 
+	"cuelang.org/go/internal/simhook"
 	"cuelang.org/go/mod/module"
 )
 
@@ -697,6 +698,7 @@ func Unzip(dir string, m module.Version, zipFile string) (err error) {
 	if err := os.MkdirAll(dir, 0777); err != nil {
 		return err
 	}
+	simhook.At("modzip.Unzip:after-mkdir", dir)
 	for _, zf := range z.File {
 		name := zf.Name
 		if name == "" || strings.HasSuffix(name, "/") {
@@ -706,10 +708,12 @@ func Unzip(dir string, m module.Version, zipFile string) (err error) {
 		if err := os.MkdirAll(filepath.Dir(dst), 0777); err != nil {
 			return err
 		}
+		simhook.At("modzip.Unzip:before-create", dir, name)
 		w, err := os.OpenFile(dst, os.O_WRONLY|os.O_CREATE|os.O_EXCL, 0444)
 		if err != nil {
 			return err
 		}
+		simhook.At("modzip.Unzip:after-create", dir, name)
 		r, err := zf.Open()
 		if err != nil {
 			w.Close()
@@ -722,9 +726,11 @@ func Unzip(dir string, m module.Version, zipFile string) (err error) {
 			w.Close()
 			return err
 		}
+		simhook.At("modzip.Unzip:after-copy", dir, name)
 		if err := w.Close(); err != nil {
 			return err
 		}
+		simhook.At("modzip.Unzip:after-close", dir, name)
 		if lr.N <= 0 {
 			return fmt.Errorf("uncompressed size of file %s is larger than declared size (%d bytes)", zf.Name, zf.UncompressedSize64)
 		}
